@@ -666,6 +666,7 @@ func runC19(c *Ctx, r *Report) {
 	c13r8(c, r)  // the parallel walker pushes concurrently: every path is listed exactly once only if the slot is filled under the list lock
 	c19r5(c, r)
 	c19r6(c, r)
+	c19r7(c, r)
 }
 
 // ------------------------------------------------------------------------------------------ C20
